@@ -96,13 +96,15 @@ def indexBatch (ix : Index) (b : Blk) (prevCount : Nat) : Index :=
     heightIdx := KV.set ix.heightIdx b.height b.hash, txMeta := tm,
     metaDB := some (b.height, b.hash, countOf b + prevCount) }
 
-/-- the state part of one block in the store engine: three storage writes, one of them under a key of raw bytes (and, in block 1 and every third block, a
+/-- the state part of one block in the store engine (an empty block above height 1 writes nothing): three storage writes, one of them under a key of raw bytes (and, in block 1 and every third block, a
 balance write, so that most blocks change only the storage of an account that has a balance), flush, commit -/
 def stateCommit (l : Ledger.L) (h : Nat) (serial : Nat) (txs : List String) : Ledger.L :=
   let l1 := Ledger.setState l 0 "height" (some (toString h))
   let l2b := Ledger.setState l1 0 s!"k{h}" (some (",".intercalate txs))
   let l2a := Ledger.setState l2b 0 "binheight" (some (toString h))      -- the raw-byte key 0xff 0xfe 'h' of the harness
-  let l2 := if h == 1 || h % 3 == 0 then Ledger.setBalance l2a 0 (1000 + (h : Int)) else l2a
+  let l2w := if h == 1 || h % 3 == 0 then Ledger.setBalance l2a 0 (1000 + (h : Int)) else l2a
+  -- an empty block above height 1 is an idle block: it changes no account at all
+  let l2 := if txs.isEmpty && decide (1 < h) then l else l2w
   let l3 := Ledger.finalise l2
   let (l4, f) := Ledger.flush (fun _ => s!"r{h}-{serial}") l3
   (Ledger.commit l4 h f).getD l4
